@@ -24,9 +24,10 @@ VARIABLES l,      \* next line to consume
           A,      \* the implementation's state graph (as an automaton record)
           T,      \* the implementation's state table
           pg,     \* "idle" | "run" | "done" | "off": state of the Pager replay
+          last,   \* kind of the previous event of this instance
           ndev    \* number of deviations so far
 
-tvars == <<l, inst, C, X, A, T, pg, ndev, core, closed, isc, edges, cnd, todo_off, pending, cur>>
+tvars == <<l, inst, C, X, A, T, pg, last, ndev, core, closed, isc, edges, cnd, todo_off, pending, cur>>
 
 On(flag) == flag \in DOMAIN IOEnv /\ IOEnv[flag] = "1"
 MaxC == IF "MAXC" \in DOMAIN IOEnv THEN atoi(IOEnv.MAXC) ELSE 6
@@ -57,8 +58,8 @@ MkX == LET canon == Canon  cc == CanonClosures(canon) IN
 \* ---------------------------------------------------------------------------------------------
 \* C17: analyses
 CostDevs(e) ==
-  LET co == e.cost
-      known == X.cyclic \/ ~X.allprod
+  LET co == e
+      known == ~X.allprod \/ MinCostAlg(e.costs).status # "ok"
   IN IF co.status # "ok"
      THEN (IF known THEN D("C17", "KF:cost-nonreturn", co.status) ELSE D("C17", "cost query " \o co.status, 0))
      ELSE
@@ -88,7 +89,6 @@ AnalysesDevs(e) ==
     \cup IfDev(SeqToSet(e.follow[r + 1]) = fo[r], "C17", "follow", <<r, e.follow[r + 1], fo[r]>>)
     \cup IfDev(SeqToSet(e.path[r + 1]) = ReachFrom(r), "C17", "has_path", <<r, e.path[r + 1], ReachFrom(r)>>)
     : r \in Rules }
-  \cup CostDevs(e)
 
 \* ---------------------------------------------------------------------------------------------
 \* graph: C16 (closure, reachability), C01 certificate, C02 (minimisation)
@@ -267,14 +267,15 @@ SimRec(t, e, cfg0, errs, hooks, k, devs, opt) ==
                       ELSE IF ~ref.found THEN (IF ref.capped THEN D("SKIP", "reference search capped", cfg.la)
                                                ELSE D("C06", "repairs reported but none exist", <<cfg.la, repset>>))
                       ELSE IfDev(repset = ref.set, "C06", "repair set # reference", <<cfg.la, repset, ref.set>>)
-                d4 == UNION { IfDev(ValidRepair(t, toks, cfg.ps, cfg.la, reps[i]), "C05", "reported repair does not repair", <<cfg.la, reps[i]>>)
+                d4 == IF ~(On("CHK_C05") \/ On("CHK_C06")) THEN {} ELSE
+                      UNION { IfDev(ValidRepair(t, toks, cfg.ps, cfg.la, reps[i]), "C05", "reported repair does not repair", <<cfg.la, reps[i]>>)
                               \cup IfDev(RepLexOK(lex, cfg.la, er.repairs[i]), "C05", "repair lexemes # input", <<cfg.la, er.repairs[i]>>)
                               \cup IfDev(Len(reps[i]) > 0 /\ reps[i][Len(reps[i])][1] # "s", "C06", "sequence empty or ends in shift", reps[i])
                               \cup IfDev(\A j \in 1 .. Len(reps[i]) : reps[i][j] # <<"i", EOF>>, "C06", "EOF inserted", reps[i])
                               \cup IfDev(SeqCostOf(toks, e.costs, cfg.la, reps[i]) = SeqCostOf(toks, e.costs, cfg.la, reps[1]),
                                          "C06", "unequal costs", <<reps[1], reps[i]>>)
                               : i \in 1 .. Len(reps) }
-                d5 == IfDev(RankOK(reps), "C06", "ranking / duplicates", reps)
+                d5 == IF On("CHK_C06") THEN IfDev(RankOK(reps), "C06", "ranking / duplicates", reps) ELSE {}
                 cfg2 == [ApplyFull(t, lex, [cfg EXCEPT !.st = "run"], reps[1]) EXCEPT !.st = "run"]
                 d6 == IF ~opt.hookchk THEN {} ELSE IfDev(hout.ev = "recover_out" /\ hout.laidx = cfg2.la /\ hout.pstack = cfg2.ps /\ hout.spans = cfg2.sp,
                             "C05", "recover_out state # replay of first repair", <<hout, cfg2.ps, cfg2.la>>)
@@ -284,8 +285,8 @@ SimRec(t, e, cfg0, errs, hooks, k, devs, opt) ==
             IN SimRec(t, e, cfg2, errs, hooks, k + 1, devs \cup d1 \cup d2 \cup d3 \cup d4 \cup d5 \cup d6 \cup d7, opt)
 
 RunDevs(t, a, e, run) ==
-  IF "panic" \in DOMAIN run THEN D("C07", "parser panicked", run.panic)
-  ELSE IF "hang" \in DOMAIN run THEN (IF X.cyclic THEN D("SKIP", "hang on cyclic grammar", 0) ELSE D("C07", "parse did not return", 0))
+  IF "panic" \in DOMAIN run /\ run.panic # "HARNESS-LOOP" THEN D("ANY", "parser panicked", run.panic)
+  ELSE IF "panic" \in DOMAIN run THEN (IF X.cyclic THEN D("SKIP", "reduce loop on cyclic grammar", 0) ELSE D("ANY", "parse did not return (reduce loop)", 0))
   ELSE
   LET lex == LexOf(e)  toks == ToksOf(e)
       aerrs == ParseErrs(run.act.errors)
@@ -326,7 +327,7 @@ RunDevs(t, a, e, run) ==
       d_c07 == IF run.recovery THEN
                  IfDev(\A i \in 1 .. Len(aerrs) - 1 : aerrs[i].repairs # <<>>, "C07", "non-last error without repairs", 0)
                  \cup IfDev((run.act.result # -1) = (\A i \in 1 .. Len(aerrs) : aerrs[i].repairs # <<>>), "C07", "value iff every error repaired", 0)
-                 \cup IfDev(Len(aerrs) <= Len(lex) + 1, "C07", "more errors than lexemes", Len(aerrs))
+                 \cup IfDev(run.act.nerrors <= Len(lex) + 1 /\ run.map.nerrors <= Len(lex) + 1, "C07", "more errors than lexemes", run.act.nerrors)
                ELSE {}
       \* language oracle (C01/C04) for the recovery-off run
       d_lang == IF ~run.recovery /\ On("CHK_LANG") /\ NoMultiCand(a) /\ X.islr1 THEN
@@ -360,10 +361,10 @@ ParseDevs(t, a, e) == UNION { RunDevs(t, a, e, e.runs[i]) : i \in 1 .. Len(e.run
 \* the trace machine
 \* a deviation is reported if its property is being checked; table-level deviations (C03, C16)
 \* are also reported when C01 is being checked, since a wrong table is a wrong parser
-Filter(S) == { d \in S : d[1] = "SKIP" \/ On("CHK_" \o d[1]) \/ (d[1] \in {"C03", "C16"} /\ On("CHK_C01") /\ On("C01_TABLE")) }
+Filter(S) == { d \in S : d[1] \in {"SKIP", "ANY"} \/ On("CHK_" \o d[1]) \/ (d[1] \in {"C03", "C16"} /\ On("CHK_C01") /\ On("C01_TABLE")) }
 
 Init == /\ l = 1 /\ inst = "" /\ C = EmptyCtx /\ X = [canon |-> {}] /\ A = [n |-> 0] /\ T = [start |-> 0]
-        /\ pg = "idle" /\ ndev = 0
+        /\ pg = "idle" /\ ndev = 0 /\ last = ""
         /\ core = <<>> /\ closed = <<>> /\ isc = <<>> /\ edges = <<>> /\ cnd = <<>>
         /\ todo_off = 0 /\ pending = {} /\ cur = 0
 
@@ -385,6 +386,22 @@ OnGrammar(e) ==
 
 \* the oracle cache is computed in the step after the grammar is loaded (operators read C)
 NeedX == Live0 /\ X.canon = {}
+
+OnCosts(e) ==
+  LET ds == Filter(IF On("CHK_C17") THEN CostDevs(e) ELSE {}) IN Report(ds) /\ ndev' = ndev + Cardinality(ds)
+  /\ UNCHANGED <<inst, C, X, A, T, pg, pvars>>
+
+\* the harness killed the child process because it stayed silent: something did not return
+OnHang(e) ==
+  LET ds == Filter(
+        CASE last = "analyses" ->
+               (IF ~X.allprod \/ MinCostAlg(Rec[l - 1].costs).status # "ok"
+                THEN D("C17", "KF:cost-nonreturn", "hang") ELSE D("C17", "cost query did not return", 0))
+          [] last \in {"table", "parse"} ->
+               (IF X.cyclic THEN D("SKIP", "parse hang on cyclic grammar", 0) ELSE D("ANY", "parse did not return", 0))
+          [] OTHER -> D("ANY", "construction did not return", last)) IN
+  Report(ds) /\ ndev' = ndev + Cardinality(ds)
+  /\ UNCHANGED <<inst, C, X, A, T, pg, pvars>>
 
 OnAnalyses(e) ==
   LET ds == Filter(IF On("CHK_C17") THEN AnalysesDevs(e) ELSE {}) IN Report(ds) /\ ndev' = ndev + Cardinality(ds)
@@ -468,15 +485,21 @@ Next ==
      /\ X' = MkX @@ (IF On("CHK_LANGSET")
                       THEN [lang |-> Lang(LangL), pre |-> IF AllProductive THEN Pre(LangL) ELSE {}]
                       ELSE [lang |-> {}, pre |-> {}])
-     /\ UNCHANGED <<l, inst, C, A, T, pg, ndev, pvars>>
+     /\ UNCHANGED <<l, inst, C, A, T, pg, last, ndev, pvars>>
   ELSE
   /\ l <= Len(Rec)
   /\ l' = l + 1
+  /\ last' = Rec[l].ev
   /\ LET e == Rec[l] IN
      CASE e.ev = "reset" -> OnReset(e)
        [] e.ev = "grammar" -> OnGrammar(e)
+       [] e.ev \in {"crash", "grammar_panic", "table_panic"} ->
+            /\ Report(D("ANY", "code under test crashed", e.ev)) /\ ndev' = ndev + 1
+            /\ UNCHANGED <<inst, C, X, A, T, pg, pvars>>
        [] ~Live0 -> Skip
        [] e.ev = "analyses" -> OnAnalyses(e)
+       [] e.ev = "costs" -> OnCosts(e)
+       [] e.ev = "hang" -> OnHang(e)
        [] e.ev \in {"pick", "exact", "merge", "new", "pregc"} -> OnPagerEv(e)
        [] e.ev = "graph" -> OnGraph(e)
        [] e.ev = "table" -> OnTable(e)
